@@ -75,7 +75,8 @@ def pixel_ratio(ctx, rule='T4'):
 
     b = ctx.anchor('asefile::parse::read_aseprite')
     if b is not None:
-        errs = [(bb, t) for (l, pj, t, bb, sp) in q.defs_in(b, b.cfg.reach) if l == 0 and not pj and t[0] == 'agg'
+        slots = q.return_slots(b)          # the refusal may sit in a helper that was inlined (`header.check_pixel_ratio()?`)
+        errs = [(bb, t) for (l, pj, t, bb, sp) in q.defs_in(b, b.cfg.reach) if l in slots and not pj and t[0] == 'agg'
                 and t[2] == 'Err' and dict(t[3])['0'][0] == 'agg' and dict(t[3])['0'][2] == UNSUPPORTED]
         ctx.floor('UnsupportedFeature returns in read_aseprite', len(errs), 1)
         for ebb, et in errs:
